@@ -26,7 +26,7 @@ WORKERS = {"quick": 4, "thorough": 16}
 WTESTS = {"groups": ['parse'], "tests": ['tests/dec', 'tests/decay/test_viewer.py']}
 REQUIRED = {**{f"char:{c}": 10 for c in L.ALPHABET_EXTRA}, **{f"bf-literal:{f}": 3 for f in ["1", "1.", ".25", "-0.8", "2E-3", "20.e-2", "+0.125"]},
             **{f"param-literal:{f}": 3 for f in ["1", "1.", ".5", "-0.8", "+3", "20.e12", "2E-4"]},
-            "models-all-published": 1, "empty-block": 10, "repeated-mother-different-body": 10, "repeated-mother-identical-body": 10,
+            "word-param-that-python-float-would-read": 10, "returned-values-edited-then-asked-again": 20, "models-all-published": 1, "empty-block": 10, "repeated-mother-different-body": 10, "repeated-mother-identical-body": 10,
             "tables>=4": 10, "tables>=8": 3, "line-without-daughters": 10, "photos-mixed-in-one-table": 10, "lines>=8": 3, "daughters>=5": 10,
             "defined-param": 10, "negated-defined-param": 5, "word-param": 10, "public-api-observation": 30, "corpus-file": 20, "second-parse-same-instance": 10, "file-constructor-same-path-rewritten": 10}
 ASSUMPTIONS = ["texts are in L_dec (DESIGN 2.1): labels are not numeric prefixes, reserved words or model-name + non-word suffix",
@@ -105,6 +105,8 @@ def classify(ctx, stmts):
                         ctx.hit("param-literal:" + p)
                 else:
                     ctx.hit("word-param")
+                    if L.FLOATWORDS.match(p) or p in ("e5", "E-3"):
+                        ctx.hit("word-param-that-python-float-would-read")
     if ntab >= 4:
         ctx.hit("tables>=4")
     if ntab >= 8:
@@ -135,6 +137,13 @@ def public_observation(ctx, p, exp, wit, limit=3):
             ctx.violate("tables:public:chain-details", f"{m}: build_decay_chains gives {got!r}, expected {w!r}", wit)
         if [r["fs_modes"] for r in rows] != [ln["fs"] for ln in want]:
             ctx.violate("tables:public:list_decay_modes", f"{m}: list_decay_modes gives {[r['fs_modes'] for r in rows]!r}", wit)
+        if ctx.rng.random() < 0.5:
+            # the caller edits what he was given (lists of lists, dictionaries) and asks again: the parser's answer is the file's, still
+            ctx.hit("returned-values-edited-then-asked-again")
+            snapshot.edit_returned_values(p, [m])
+            ok, rows2 = ctx.guard("tables:public-queries:after-edit", wit, snapshot.table_of, p, m)
+            if ok and L.typed(rows2) != L.typed(rows):
+                ctx.violate("tables:public:answer-depends-on-edits-of-earlier-answers", f"{m}: asked again after editing the returned values: {rows2!r}, before {rows!r}", wit)
         if want:
             ok, txt = ctx.guard("tables:public:print", wit, snapshot.photos_flags, p, m)
             if ok:
